@@ -15,43 +15,51 @@ interleavings and all spurious polls), `finish c`, `fire` (one event for the sou
 sequence `ops` of the task-level operations the driver and the harness execute (`C17_ops_are_runs`
 shows the latter are instances of the former).  Consumers are arbitrary natural numbers: there is no
 bound on their number.
+
+Wakers may be shared: every theorem also quantifies over every assignment `grp : Task → Task` of
+consumers to wakers – consumer `c` is polled with the waker of task `grp c`, and that waker wakes every
+consumer `t` with `grp t = grp c` (two requests joined in one task: `join!`, `FuturesUnordered`).
+`pending_wakes`, the source and the wake log hold waker ids.  Section `OwnWaker` at the end restates
+everything for `grp = id` (one waker per consumer), in the form the statements had before.
 -/
 namespace FluentProofs.C17
 open FluentModel.Cache FluentProofs.Cache
 
 variable {α : Type}
 
-/-- states reachable from the initial state of a script by any label sequence -/
-def Reachable (script : List (Nat × α)) (e : Nat) (s : St α) : Prop :=
-  ∃ ls, s = run (init script e) ls
+/-- states reachable from the initial state of a script by any label sequence, with wakers assigned
+by `grp` -/
+def Reachable (script : List (Nat × α)) (e : Nat) (grp : Task → Task) (s : St α) : Prop :=
+  ∃ ls, s = run (init script e grp) ls
 
 /-- **items_prefix / once.** In every reachable state the cached items followed by the items the source
 has not yet yielded are exactly the source's items in order – the cache is a prefix of the source's
 order, nothing is lost, duplicated or reordered – and the number of items the source has yielded
 equals the cache length (each bundle is generated exactly once, then reused). -/
-theorem C17_items_prefix (script : List (Nat × α)) (e : Nat) (ls : List Label) :
-    let s := run (init script e) ls
+theorem C17_items_prefix (script : List (Nat × α)) (e : Nat) (grp : Task → Task) (ls : List Label) :
+    let s := run (init script e grp) ls
     s.items ++ s.src.rest.map (·.2) = script.map (·.2) ∧ s.src.pulls = s.items.length := by
-  have h := safe_run ls (safe_init script e)
+  have h := safe_run ls (safe_init script e grp)
   exact ⟨h.order, h.pulls⟩
 
 /-- **consumers_agree.** What any consumer's stream has delivered so far is exactly the first `curr`
 cached items; hence the `i`-th bundle ANY consumer receives is the source's `i`-th bundle (same
 bundles, same order, none lost or duplicated, for every consumer and every request). -/
-theorem C17_consumers_agree (script : List (Nat × α)) (e : Nat) (ls : List Label) (c : Task) :
-    let s := run (init script e) ls
+theorem C17_consumers_agree (script : List (Nat × α)) (e : Nat) (grp : Task → Task) (ls : List Label)
+    (c : Task) :
+    let s := run (init script e grp) ls
     (s.cons c).got = s.items.take (s.cons c).curr ∧
     ∀ (i : Nat) (x : α), (s.cons c).got[i]? = some x → (script.map (·.2))[i]? = some x := by
-  have h := safe_run ls (safe_init script e)
+  have h := safe_run ls (safe_init script e grp)
   refine ⟨h.got c, ?_⟩
   intro i x hx
   rw [h.got c] at hx
-  have hi : i < ((run (init script e) ls).items.take ((run (init script e) ls).cons c).curr).length := by
-    rcases Nat.lt_or_ge i ((run (init script e) ls).items.take ((run (init script e) ls).cons c).curr).length with h | h
+  have hi : i < ((run (init script e grp) ls).items.take ((run (init script e grp) ls).cons c).curr).length := by
+    rcases Nat.lt_or_ge i ((run (init script e grp) ls).items.take ((run (init script e grp) ls).cons c).curr).length with h | h
     · exact h
     · rw [List.getElem?_eq_none h] at hx; cases hx
   rw [List.getElem?_eq_getElem hi, List.getElem_take] at hx
-  have hi' : i < (run (init script e) ls).items.length := by
+  have hi' : i < (run (init script e grp) ls).items.length := by
     have := hi
     rw [List.length_take] at this
     omega
@@ -89,30 +97,31 @@ theorem C17_lazy_growth (s : St α) (c : Task) :
 /-- **lazy.** Under every sequence of task-level operations (requests of any depths, polled in any
 interleaving, with any source events) the number of bundles generated never exceeds the depth of the
 deepest request issued so far. -/
-theorem C17_lazy (script : List (Nat × α)) (e : Nat) (ops : List Op) :
-    let s := opRun (init script e) ops
-    s.items.length ≤ deepest (init script e) ops ∧ s.src.pulls ≤ deepest (init script e) ops := by
-  have h0 : OpInv 0 (init script e) := ⟨fun c hc => by simp [init] at hc, by simp [init]⟩
+theorem C17_lazy (script : List (Nat × α)) (e : Nat) (grp : Task → Task) (ops : List Op) :
+    let s := opRun (init script e grp) ops
+    s.items.length ≤ deepest (init script e grp) ops ∧ s.src.pulls ≤ deepest (init script e grp) ops := by
+  have h0 : OpInv 0 (init script e grp) := ⟨fun c hc => by simp [init] at hc, by simp [init]⟩
   have h := opInv_opRun ops h0
-  obtain ⟨ls, hls⟩ := opRun_run (init script e) ops
-  have hs := safe_run ls (safe_init script e)
+  obtain ⟨ls, hls⟩ := opRun_run (init script e grp) ops
+  have hs := safe_run ls (safe_init script e grp)
   rw [← hls] at hs
   simp only [Nat.zero_max] at h
   exact ⟨h.2, by rw [hs.pulls]; exact h.2⟩
 
 /-- **answer.** A request of depth `d` that completes with a bundle is answered by the `d`-th bundle
 of the source's order, whatever happened in between. -/
-theorem C17_answer (script : List (Nat × α)) (e : Nat) (ops : List Op) (c : Task) (it : α) :
-    let s := opRun (init script e) ops
+theorem C17_answer (script : List (Nat × α)) (e : Nat) (grp : Task → Task) (ops : List Op) (c : Task)
+    (it : α) :
+    let s := opRun (init script e grp) ops
     (pollTask s c).2 = .done (some it) →
     (script.map (·.2))[max (s.cons c).want 1 - 1]? = some it := by
   intro s hr
-  have h0 : OpInv 0 (init script e) := ⟨fun c hc => by simp [init] at hc, by simp [init]⟩
+  have h0 : OpInv 0 (init script e grp) := ⟨fun c hc => by simp [init] at hc, by simp [init]⟩
   have h := opInv_opRun ops h0
   have ha := pollTask_answer c h it hr
-  obtain ⟨ls, hls⟩ := opRun_run (init script e) ops
+  obtain ⟨ls, hls⟩ := opRun_run (init script e grp) ops
   obtain ⟨ls2, _, hls2⟩ := pollTask_run s c
-  have hs := safe_run ls2 (safe_run ls (safe_init script e))
+  have hs := safe_run ls2 (safe_run ls (safe_init script e grp))
   rw [← hls, ← hls2] at hs
   have hlt : max (s.cons c).want 1 - 1 < (pollTask s c).1.items.length := by
     rcases Nat.lt_or_ge (max (s.cons c).want 1 - 1) (pollTask s c).1.items.length with h | h
@@ -121,59 +130,97 @@ theorem C17_answer (script : List (Nat × α)) (e : Nat) (ops : List Op) (c : Ta
   rw [← hs.order, List.getElem?_append_left hlt]
   exact ha
 
-/-- **no_lost_wakeup (invariant).** In every reachable state: only requests in flight wait; every
-waker in `pending_wakes` belongs to a waiting request standing at the end of the cache; every parked
-request (waiting, not woken) stands at the end of the cache and its waker IS in `pending_wakes`; the
-waker the source holds is the last one registered (the last entry of `pending_wakes`), belongs to a
-waiting request, and the source really is pending; and while anybody is parked, the source holds a
-waker or some waiting request at the end of the cache is runnable. -/
-theorem C17_no_lost_wakeup (script : List (Nat × α)) (e : Nat) (ls : List Label) :
-    WakeInv none (run (init script e) ls) :=
-  wakeInv_run ls (wakeInv_init script e)
+/-- **no_lost_wakeup (invariant).** In every reachable state, for every waker assignment `grp`: only
+requests in flight wait; every waker in `pending_wakes` belongs to a waiting request standing at the end
+of the cache (some consumer polled with it waits there: `Backed`); every parked request `t` (waiting, not
+woken) stands at the end of the cache and its waker `grp t` IS in `pending_wakes`; the waker the source
+holds is the last one registered (the last entry of `pending_wakes`), belongs to a waiting request, and
+the source really is pending; and while anybody is parked, the source holds a waker or some waiting
+request at the end of the cache is runnable. -/
+theorem C17_no_lost_wakeup (script : List (Nat × α)) (e : Nat) (grp : Task → Task) (ls : List Label) :
+    WakeInv none (run (init script e grp) ls) :=
+  wakeInv_run ls (wakeInv_init script e grp)
+
+/-- the heart of `C17_no_lost_wakeup`, spelled out: a request that waits and has not been woken has its
+waker `grp c` in `pending_wakes`; and the waker the source remembers is one of those (the last) -/
+theorem C17_no_lost_wakeup_parked (script : List (Nat × α)) (e : Nat) (grp : Task → Task)
+    (ls : List Label) (c : Task) :
+    let s := run (init script e grp) ls
+    (s.cons c).waiting = true → (s.cons c).woken = false →
+    grp c ∈ s.pending ∧ ∀ w, s.src.waker = some w → s.pending.getLast? = some w := by
+  intro s hw hn
+  have hs : WakeInv none s := wakeInv_run ls (wakeInv_init script e grp)
+  have hg : s.grp = grp := run_grp _ ls
+  have := (hs.park c (by simp) ⟨hw, hn⟩).2
+  rw [hg] at this
+  exact ⟨this, fun w h => (hs.srcw w h).2.2⟩
 
 /-- **no_lost_wakeup (wake all).** When a stream at the end of the cache polls a source that is ready,
-every registered waker is called: afterwards no request is parked. -/
-theorem C17_ready_wakes_all (script : List (Nat × α)) (e : Nat) (ls : List Label) (c : Task) (fresh : Bool) :
-    let s := run (init script e) ls
+every registered waker is called, and each wakes every consumer polled with it: afterwards no request
+is parked. -/
+theorem C17_ready_wakes_all (script : List (Nat × α)) (e : Nat) (grp : Task → Task) (ls : List Label)
+    (c : Task) (fresh : Bool) :
+    let s := run (init script e grp) ls
     (s.cons c).active = true → (s.cons c).curr = s.items.length → s.src.need = 0 →
     ∀ t, ¬ Parked (step s (.poll c fresh)) t :=
-  fun ha hc hn t => ready_wakes_all (wakeInv_run ls (wakeInv_init script e)) c fresh ha hc hn t
+  fun ha hc hn t => ready_wakes_all (wakeInv_run ls (wakeInv_init script e grp)) c fresh ha hc hn t
 
 /-- **progress.** In every reachable state in which some request waits, either a waiting request's task
-has been woken (it is runnable), or the source is pending and holds the waker of a parked request (so
-the source's next event makes that task runnable).  There is no reachable stuck state. -/
-theorem C17_progress (script : List (Nat × α)) (e : Nat) (ls : List Label) (c : Task) :
-    let s := run (init script e) ls
+has been woken (it is runnable), or the source is pending and holds the waker `grp t` of a parked
+request `t` (so the source's next event makes that request's task runnable).  There is no reachable
+stuck state. -/
+theorem C17_progress (script : List (Nat × α)) (e : Nat) (grp : Task → Task) (ls : List Label) (c : Task) :
+    let s := run (init script e grp) ls
     (s.cons c).waiting = true →
-    (∃ w, (s.cons w).waiting = true ∧ (s.cons w).woken = true) ∨
-    (s.src.need ≠ 0 ∧ ∃ w, s.src.waker = some w ∧ Parked s w) :=
-  fun hc => progress_of_wakeInv (wakeInv_run ls (wakeInv_init script e)) c hc
+    (∃ t, (s.cons t).waiting = true ∧ (s.cons t).woken = true) ∨
+    (s.src.need ≠ 0 ∧ ∃ t, s.src.waker = some (grp t) ∧ Parked s t) := by
+  intro s hc
+  have hg : s.grp = grp := run_grp _ ls
+  have := progress_of_wakeInv (wakeInv_run ls (wakeInv_init script e grp)) c hc
+  rw [hg] at this
+  exact this
 
 /-- **eventually woken and completes.** From any reachable state, consider any executor that from then
-on only takes *useful* steps – polls a task whose waiting request has been woken, or lets the pending
-source deliver an event (a fair executor with a source that eventually yields; `k` bounds the task
-ids in use).  (1) It can take at most `measure k s` such steps.  (2) As long as a request waits, a
-useful step exists.  Hence every maximal such run is finite and ends with no request waiting. -/
-theorem C17_drain (script : List (Nat × α)) (e : Nat) (ls : List Label) (k : Nat) (us : List Label) :
-    let s := run (init script e) ls
-    UsefulRun k s us →
-    us.length ≤ measure k s ∧
+on only takes *useful* steps – polls a consumer whose waiting request has been woken, or lets the pending
+source deliver an event (a fair executor with a source that eventually yields; `k` bounds the consumer
+ids in use, and no waker is shared by more than `g` of them).  (1) It can take at most `measureG g k s`
+such steps.  (2) As long as a request waits, a useful step exists.  Hence every maximal such run is
+finite and ends with no request waiting. -/
+theorem C17_drain (script : List (Nat × α)) (e : Nat) (grp : Task → Task) (ls : List Label) (g k : Nat)
+    (us : List Label) :
+    let s := run (init script e grp) ls
+    GroupBound g k grp → UsefulRun k s us →
+    us.length ≤ measureG g k s ∧
     ((∀ t, ((run s us).cons t).waiting = true → t < k) →
       (¬ ∃ l, Useful k (run s us) l) → ∀ c, ((run s us).cons c).waiting = false) := by
-  intro s hu
-  have hs : WakeInv none s := wakeInv_run ls (wakeInv_init script e)
-  refine ⟨by have := usefulRun_length_le us hs hu; omega, ?_⟩
+  intro s hg hu
+  have hs : WakeInv none s := wakeInv_run ls (wakeInv_init script e grp)
+  have hg' : GroupBound g k s.grp := by
+    have : s.grp = grp := run_grp _ ls
+    rw [this]; exact hg
+  refine ⟨by have := usefulRun_length_le us hs hg' hu; omega, ?_⟩
   intro hk hno c
   cases hw : ((run s us).cons c).waiting with
   | false => rfl
   | true => exact absurd (useful_exists (wakeInv_run us hs) hk c hw) hno
 
+/-- `C17_drain` for EVERY waker assignment, with no side condition: a waker is never shared by more than
+all `k` consumers, so `measureG k k s` bounds the number of useful steps. -/
+theorem C17_drain_any (script : List (Nat × α)) (e : Nat) (grp : Task → Task) (ls : List Label) (k : Nat)
+    (us : List Label) :
+    let s := run (init script e grp) ls
+    UsefulRun k s us →
+    us.length ≤ measureG k k s ∧
+    ((∀ t, ((run s us).cons t).waiting = true → t < k) →
+      (¬ ∃ l, Useful k (run s us) l) → ∀ c, ((run s us).cons c).waiting = false) :=
+  C17_drain script e grp ls k k us (groupBound_self k grp)
+
 /-- **task-level operations are label runs.** Every state the driver (and the harness) reaches with
 `start` / poll-a-future / `fire` operations is reached by a sequence of fine-grained labels, so all
 theorems above hold for it. -/
-theorem C17_ops_are_runs (script : List (Nat × α)) (e : Nat) (ops : List Op) :
-    Reachable script e (opRun (init script e) ops) :=
-  opRun_run (init script e) ops
+theorem C17_ops_are_runs (script : List (Nat × α)) (e : Nat) (grp : Task → Task) (ops : List Op) :
+    Reachable script e grp (opRun (init script e grp) ops) :=
+  opRun_run (init script e grp) ops
 
 /-- **fuel.** The loop that models one poll of a request's future never runs out of fuel. -/
 theorem C17_fuel (s : St α) (c : Task) : (pollTask s c).2 ≠ .outOfFuel :=
@@ -182,12 +229,12 @@ theorem C17_fuel (s : St α) (c : Task) : (pollTask s c).2 ≠ .outOfFuel :=
 /-- **iterator variant.** Over a source that never answers `Pending` the sync cache (`CacheIter::next`,
 `format_*_sync`) behaves exactly like the async one: same results, same states, for every sequence
 of operations – so every theorem above covers the iterator variant. -/
-theorem C17_sync_is_async (items : List α) (ops : List Op) :
-    ops.foldl syncOpStep (init (items.map fun x => (0, x)) 0)
-      = opRun (init (items.map fun x => (0, x)) 0) ops ∧
-    ∀ c, syncTask (opRun (init (items.map fun x => (0, x)) 0) ops) c
-      = pollTask (opRun (init (items.map fun x => (0, x)) 0) ops) c := by
-  have h0 : NoPend (init (items.map fun x => ((0 : Nat), x)) 0) := by
+theorem C17_sync_is_async (items : List α) (grp : Task → Task) (ops : List Op) :
+    ops.foldl syncOpStep (init (items.map fun x => (0, x)) 0 grp)
+      = opRun (init (items.map fun x => (0, x)) 0 grp) ops ∧
+    ∀ c, syncTask (opRun (init (items.map fun x => (0, x)) 0 grp) ops) c
+      = pollTask (opRun (init (items.map fun x => (0, x)) 0 grp) ops) c := by
+  have h0 : NoPend (init (items.map fun x => ((0 : Nat), x)) 0 grp) := by
     refine ⟨?_, rfl, rfl⟩
     intro p hp
     simp only [init, List.mem_map] at hp
@@ -233,6 +280,35 @@ example : Useful 2 demo .fire ∧ measure 2 demo = 2 * 1 + 3 * 2 + 0 := by
   · decide
 example : deepest (init [(0, 10), (1, 11), (0, 12)] 0) [.start 0 3, .start 1 2, .poll 0, .poll 1] = 3 := by decide
 
+/-! Shared wakers: consumers 0 and 1 are two requests joined in ONE task (waker 0), consumer 2 has a task
+of its own (waker 2); one bundle that needs one source event.  All three park: `pending_wakes` holds
+waker 0 twice and waker 2, the source remembers only waker 2.  The event wakes waker 2 only; consumer
+2's poll gets the bundle and calls every registered waker, which makes BOTH joined requests runnable. -/
+
+private def joined (c : Task) : Task := c - c % 2
+
+private def demoJ : St Nat :=
+  opRun (init [(1, 10)] 0 joined)
+    [.start 0 1, .start 1 1, .start 2 1, .poll 0, .poll 1, .poll 2]
+
+example : (demoJ.items, demoJ.pending, demoJ.src.waker, demoJ.src.polls) = ([], [0, 0, 2], some 2, 3) := by
+  decide
+example : Parked demoJ 0 ∧ Parked demoJ 1 ∧ Parked demoJ 2 := by unfold Parked; decide
+example : (opStep demoJ .fire).wakeLog = [2] ∧ Parked (opStep demoJ .fire) 0 ∧ Parked (opStep demoJ .fire) 1 ∧
+    ((opStep demoJ .fire).cons 2).woken = true := by unfold Parked; decide
+example : let s := (pollTask (opStep demoJ .fire) 2).1
+    (s.wakeLog, s.pending, (s.cons 0).woken, (s.cons 1).woken, (s.cons 1).waiting)
+      = ([2, 0, 0, 2], [], true, true, true) := by decide
+example : let s := (pollTask (opStep demoJ .fire) 2).1
+    (pollTask s 1).2 = .done (some 10) ∧ (pollTask s 0).2 = .done (some 10) ∧
+    (pollTask s 1).1.src.pulls = 1 := by decide
+/-- a source event whose waker is shared makes two requests runnable at once: the `g = 1` measure would
+go up, `measureG 2` goes down -/
+private def demoJ2 : St Nat :=
+  opRun (init [(1, 10)] 0 joined) [.start 0 1, .start 1 1, .poll 0, .poll 1]
+example : measure 2 demoJ2 = 8 ∧ measure 2 (opStep demoJ2 .fire) = 8 ∧
+    measureG 2 2 demoJ2 = 9 ∧ measureG 2 2 (opStep demoJ2 .fire) = 8 := by decide
+
 /-- **Prefetch is invisible to the cache.**  `Bundles::prefetch_sync` / `prefetch_async` only forward to the source's
 own hook: whatever history of requests, polls, source events and prefetches runs, the state (cached items, source
 position and counters, every consumer, parked wakers, wake log) is the one the history WITHOUT the prefetches
@@ -242,5 +318,110 @@ theorem prefetch_is_invisible (s : St α) : prefetch s = s := rfl
 theorem prefetch_anywhere (s : St α) (ops₁ ops₂ : List Op) :
     opRun (prefetch (opRun s ops₁)) ops₂ = opRun s (ops₁ ++ ops₂) := by
   simp [prefetch, opRun, List.foldl_append]
+
+/-! ## One waker per consumer (`grp = id`)
+
+The statements as they were before wakers could be shared (`init script e` is `init script e id`): each
+follows from the general theorem of the same name. -/
+namespace OwnWaker
+
+/-- `WakeInv` for wakers that are not shared: waker id = consumer id -/
+structure WakeInvId (x : Option Task) (s : St α) : Prop where
+  /-- only requests in flight wait -/
+  act : ∀ t, (s.cons t).waiting = true → (s.cons t).active = true
+  /-- every waker in `pending_wakes` belongs to a waiting request that stands at the end of the cache -/
+  pend : ∀ t, t ∈ s.pending → (s.cons t).waiting = true ∧ (s.cons t).curr = s.items.length
+  /-- every parked request stands at the end of the cache and its waker is in `pending_wakes` -/
+  park : ∀ t, x ≠ some t → Parked s t → (s.cons t).curr = s.items.length ∧ t ∈ s.pending
+  /-- the waker the source holds is the last one registered (also in `pending_wakes`), its request
+  waits at the end of the cache, and the source really is pending -/
+  srcw : ∀ w, s.src.waker = some w → s.src.need ≠ 0 ∧ (s.cons w).waiting = true ∧
+      (s.cons w).curr = s.items.length ∧ s.pending.getLast? = some w
+  /-- while anybody is parked, either the source holds a waker, or a waiting request at the end of
+  the cache is runnable (or is the one being polled right now) -/
+  hope : (∃ t, x ≠ some t ∧ Parked s t) → s.src.waker ≠ none ∨
+      ∃ w, (s.cons w).waiting = true ∧ (s.cons w).curr = s.items.length ∧
+        ((s.cons w).woken = true ∨ x = some w)
+
+theorem backed_id {s : St α} (hg : s.grp = id) {w : Task} (h : Backed s w) :
+    (s.cons w).waiting = true ∧ (s.cons w).curr = s.items.length := by
+  obtain ⟨t, h1, h2, h3⟩ := h
+  rw [hg] at h1
+  cases h1
+  exact ⟨h2, h3⟩
+
+theorem wakeInvId_of_wakeInv {x : Option Task} {s : St α} (hg : s.grp = id) (h : WakeInv x s) :
+    WakeInvId x s := by
+  refine ⟨h.act, fun t ht => backed_id hg (h.pend t ht), ?_, ?_, h.hope⟩
+  · intro t hx hp
+    have := h.park t hx hp
+    rw [hg] at this
+    exact this
+  · intro w hw
+    have := h.srcw w hw
+    exact ⟨this.1, (backed_id hg this.2.1).1, (backed_id hg this.2.1).2, this.2.2⟩
+
+theorem run_init_grp (script : List (Nat × α)) (e : Nat) (ls : List Label) :
+    (run (init script e) ls).grp = id := run_grp _ ls
+
+theorem C17_items_prefix (script : List (Nat × α)) (e : Nat) (ls : List Label) :
+    let s := run (init script e) ls
+    s.items ++ s.src.rest.map (·.2) = script.map (·.2) ∧ s.src.pulls = s.items.length :=
+  C17.C17_items_prefix script e id ls
+
+theorem C17_consumers_agree (script : List (Nat × α)) (e : Nat) (ls : List Label) (c : Task) :
+    let s := run (init script e) ls
+    (s.cons c).got = s.items.take (s.cons c).curr ∧
+    ∀ (i : Nat) (x : α), (s.cons c).got[i]? = some x → (script.map (·.2))[i]? = some x :=
+  C17.C17_consumers_agree script e id ls c
+
+theorem C17_lazy (script : List (Nat × α)) (e : Nat) (ops : List Op) :
+    let s := opRun (init script e) ops
+    s.items.length ≤ deepest (init script e) ops ∧ s.src.pulls ≤ deepest (init script e) ops :=
+  C17.C17_lazy script e id ops
+
+theorem C17_answer (script : List (Nat × α)) (e : Nat) (ops : List Op) (c : Task) (it : α) :
+    let s := opRun (init script e) ops
+    (pollTask s c).2 = .done (some it) →
+    (script.map (·.2))[max (s.cons c).want 1 - 1]? = some it :=
+  C17.C17_answer script e id ops c it
+
+theorem C17_no_lost_wakeup (script : List (Nat × α)) (e : Nat) (ls : List Label) :
+    WakeInvId none (run (init script e) ls) :=
+  wakeInvId_of_wakeInv (run_init_grp script e ls) (C17.C17_no_lost_wakeup script e id ls)
+
+theorem C17_ready_wakes_all (script : List (Nat × α)) (e : Nat) (ls : List Label) (c : Task) (fresh : Bool) :
+    let s := run (init script e) ls
+    (s.cons c).active = true → (s.cons c).curr = s.items.length → s.src.need = 0 →
+    ∀ t, ¬ Parked (step s (.poll c fresh)) t :=
+  C17.C17_ready_wakes_all script e id ls c fresh
+
+theorem C17_progress (script : List (Nat × α)) (e : Nat) (ls : List Label) (c : Task) :
+    let s := run (init script e) ls
+    (s.cons c).waiting = true →
+    (∃ w, (s.cons w).waiting = true ∧ (s.cons w).woken = true) ∨
+    (s.src.need ≠ 0 ∧ ∃ w, s.src.waker = some w ∧ Parked s w) :=
+  C17.C17_progress script e id ls c
+
+theorem C17_drain (script : List (Nat × α)) (e : Nat) (ls : List Label) (k : Nat) (us : List Label) :
+    let s := run (init script e) ls
+    UsefulRun k s us →
+    us.length ≤ measure k s ∧
+    ((∀ t, ((run s us).cons t).waiting = true → t < k) →
+      (¬ ∃ l, Useful k (run s us) l) → ∀ c, ((run s us).cons c).waiting = false) :=
+  C17.C17_drain script e id ls 1 k us (groupBound_id k)
+
+theorem C17_ops_are_runs (script : List (Nat × α)) (e : Nat) (ops : List Op) :
+    Reachable script e id (opRun (init script e) ops) :=
+  C17.C17_ops_are_runs script e id ops
+
+theorem C17_sync_is_async (items : List α) (ops : List Op) :
+    ops.foldl syncOpStep (init (items.map fun x => (0, x)) 0)
+      = opRun (init (items.map fun x => (0, x)) 0) ops ∧
+    ∀ c, syncTask (opRun (init (items.map fun x => (0, x)) 0) ops) c
+      = pollTask (opRun (init (items.map fun x => (0, x)) 0) ops) c :=
+  C17.C17_sync_is_async items id ops
+
+end OwnWaker
 
 end FluentProofs.C17
